@@ -234,6 +234,9 @@ func (r *Run) execute(t *testing.T) {
 	synctest.Test(t, func(t *testing.T) {
 		sim := verifrt.New()
 		sim.Choose = r.Choose
+		if r.KeepLog && os.Getenv("VERIF_RTDEBUG") != "" {
+			sim.Debug = func(m string) { r.LogLines = append(r.LogLines, "      # "+m) }
+		}
 		r.Sim = sim
 		verifrt.S = sim
 		defer func() { verifrt.S = nil }()
